@@ -352,6 +352,8 @@ def linspace(
     range_ = stop - start
 
     div = (num - 1) if endpoint else num
+    # numpy returns a nan step when there is no interval to divide
+    nan_step = div <= 0
     if div == 0:
         div = 1
 
@@ -376,7 +378,7 @@ def linspace(
         dsk[task.key] = task
 
     if retstep:
-        return Array(dsk, name, chunks, dtype=dtype), step
+        return Array(dsk, name, chunks, dtype=dtype), (np.nan if nan_step else step)
     else:
         return Array(dsk, name, chunks, dtype=dtype)
 
